@@ -113,3 +113,6 @@ Print Assumptions C13_deserialise_no_panic.
 Print Assumptions C13_kernels_no_panic_partial.
 Print Assumptions C13_mont_no_panic_partial.
 Check F204.Proofs.KernelAgree.kernels_agree.
+(* T2: the explicit panic sites of the crate are exactly the ones the model has a guard / Panic outcome for *)
+Require F204.Proofs.SourcePins.
+Check F204.Proofs.SourcePins.panic_sites_pinned.
